@@ -40,6 +40,7 @@ func main() {
 	runLockset(run, st, sh, next)
 	runSnapshots(run, rng, st, sh, next)
 	runDeepReturns(run, rng, st)
+	runCkptOracle(run, rng, st, sh, next)
 	if run.Thorough() {
 		runRace(run, st)
 	}
